@@ -4,6 +4,8 @@ import (
 	"context"
 	"errors"
 	"fmt"
+	"os"
+	"path/filepath"
 	"sort"
 	"strings"
 	"sync"
@@ -20,7 +22,7 @@ import (
 func init() {
 	Register(&Check{
 		Spec: core.Spec{ID: "C13", Level: "fault_enumeration",
-			Rule:        "case = a population of files (several engines' worth, multi-group where limits allow) in an in-memory DataStore (with/without Abort, real or deferred deletion) + MemoryMetaStore. A fault-free Merge from a deep copy records its n store calls (iterator start/yields, CreateFile, OpenFile, Seek, Read, Write, Close, Update, TombstoneFile); then one Merge per position i from an identical deep copy with call i failing (Close and TombstoneFile also 'effect applied, then error'), one per cleanup call a failure provoked, PRNG pairs, a context cancelled at a PRNG position, and a second Merge issued while the first is held at a gate. Each run is classified by whether its MetaStore.Update applied and checked for the all-or-nothing contract and the return-value contract. evaluations = Merge runs; non-trivial = run whose fault was reached; distinct = distinct (population, fault positions); exhaustive over single positions of each explored population",
+			Rule:        "case = a population of files (several engines' worth, multi-group where limits allow) in an in-memory DataStore (with/without Abort, real or deferred deletion) + MemoryMetaStore, or (every fourth population) in a FileSystemDataStore used as both stores, each run on a fresh copy of the directory, where the directory itself is the visible content. A fault-free Merge from a deep copy records its n store calls (iterator start/yields, CreateFile, OpenFile, Seek, Read, Write, Close, Update, TombstoneFile); then one Merge per position i from an identical deep copy with call i failing (Close and TombstoneFile also 'effect applied, then error'), one per cleanup call a failure provoked, PRNG pairs, a context cancelled at a PRNG position, and a second Merge issued while the first is held at a gate. Each run is classified by whether its MetaStore.Update applied and checked for the all-or-nothing contract and the return-value contract. evaluations = Merge runs; non-trivial = run whose fault was reached; distinct = distinct (population, fault positions); exhaustive over single positions of each explored population",
 			Assumptions: []string{"MetaStore.Update is atomic: an injected Update failure applies nothing", "the sequential Merge of a fixed population issues a deterministic kind sequence (map-order changes only permute calls of the same kind)"},
 			Floors:      map[string]int64{"populations": 4, "runs_with_fault_reached": 300, "runs_committed": 30, "runs_not_committed": 150, "concurrent_merge_checks": 4}},
 		Cases: func(t string) int { return nQueries(t, 32, 400) },
@@ -78,15 +80,44 @@ func runC13(rc *RunCtx, i int) {
 	r := rc.CaseRand(i)
 	caseID := fmt.Sprintf("%s%d_%d", strings.ToLower(rc.ID), rc.Seed, i)
 	// ---- population
-	o := world.BuildOpts{Kind: world.StoreMem, NoMerge: true, MaxRows: 90}
+	// Every fourth population lives in a FileSystemDataStore used as both stores: there the
+	// directory is the MetaStore, so an uncommitted merge output that is left published is
+	// visible content (with a separate MetaStore it would only be an unreferenced leftover).
+	fsBoth := i%4 == 3
+	o := world.BuildOpts{Kind: world.StoreMem, NoMerge: true, MaxRows: 90, ManyFiles: i%2 == 1}
+	if fsBoth {
+		o.Kind = world.StoreFS
+	}
 	w, d, err := world.Build(r.Split("pop"), caseID, o)
 	if err != nil {
 		rc.Violate(i, "scenario-failed", "", err.Error(), nil)
 		return
 	}
 	defer w.Close()
-	w.Mem.WithAbort = r.Chance(0.6)
-	w.Mem.RealDelete = r.Chance(0.6)
+	if !fsBoth {
+		w.Mem.WithAbort = r.Chance(0.6)
+		w.Mem.RealDelete = r.Chance(0.6)
+	}
+	norm := func(p string) string {
+		if fsBoth {
+			return filepath.Base(p)
+		}
+		return p
+	}
+	normAll := func(ps []string) []string {
+		out := make([]string, len(ps))
+		for k, p := range ps {
+			out[k] = norm(p)
+		}
+		sort.Strings(out)
+		return out
+	}
+	var copies []string
+	defer func() {
+		for _, c := range copies {
+			os.RemoveAll(c)
+		}
+	}()
 	mspec := gen.PickEngineSpec(r.Split("mergespec"), w.Vocab, w.Tok)
 	mspec.RGRows = core.Pick(r, []int{4, 8, 20, 10000})
 	mspec.RGBytes = core.Pick(r, []int{1500, 6000, 50000, 10 << 20})
@@ -98,12 +129,31 @@ func runC13(rc *RunCtx, i int) {
 		rc.Violate(i, "inventory-failed", "", err.Error(), d)
 		return
 	}
-	before := c13State{ptrs: metaPointers(w.Meta), rows: vidMultiset(baseInv)}
-	desc := map[string]any{"population": d, "merge_engine": mspec, "with_abort": w.Mem.WithAbort, "real_delete": w.Mem.RealDelete, "files": len(before.ptrs)}
+	before := c13State{ptrs: normAll(metaPointers(w.Meta)), rows: vidMultiset(baseInv)}
+	desc := map[string]any{"population": d, "merge_engine": mspec, "files": len(before.ptrs), "fs_as_both_stores": fsBoth}
+	if !fsBoth {
+		desc["with_abort"], desc["real_delete"] = w.Mem.WithAbort, w.Mem.RealDelete
+	}
 
 	exec := func(faults []c13Fault, gateCreate *stores.Gate) (*c13Run, *bs.BloomSearchEngine, *stores.Log, func() (*bs.MergeStats, error)) {
-		data := w.Mem.Clone()
-		meta := cloneMeta(w.Meta)
+		var data bs.DataStore
+		var meta bs.MetaStore
+		if fsBoth {
+			dir, cerr := copyDir(w.Dir)
+			if cerr != nil {
+				return &c13Run{viol: "copy: " + cerr.Error()}, nil, nil, nil
+			}
+			// one copy at a time is enough: drop the previous ones
+			for _, c := range copies {
+				os.RemoveAll(c)
+			}
+			copies = append(copies[:0], dir)
+			fs := bs.NewFileSystemDataStore(dir)
+			data, meta = fs, fs
+		} else {
+			data = w.Mem.Clone()
+			meta = cloneMeta(w.Meta)
+		}
 		log := stores.NewLog(&stores.Clock{})
 		idata := stores.NewInstrDataStore(data, log)
 		imeta := stores.NewInstrMetaStore(meta, log)
@@ -152,14 +202,23 @@ func runC13(rc *RunCtx, i int) {
 				upd = &upds[0]
 				run.committed = upd.Applied
 			}
-			after := metaPointers(meta)
+			after := normAll(metaPointers(meta))
 			inv, ierr := world.InventoryOf(meta, data)
 			if ierr != nil {
 				run.viol = "after the Merge a file referenced by the MetaStore is not readable: " + ierr.Error()
 				run.kind = "referenced-file-unreadable"
 				return stats, merr
 			}
-			if !sameCounts(before.rows, vidMultiset(inv)) {
+			cleanupFaulted := false
+			for _, c := range run.calls {
+				if (c.Kind == "TombstoneFile" || c.Kind == "Abort") && c.Err != "" {
+					cleanupFaulted = true
+				}
+			}
+			// With the directory as MetaStore a cleanup call that the harness itself made fail leaves
+			// the output published: nothing the engine could do (the store pair has no atomic commit,
+			// see the C14/C15 known findings). Content is compared whenever cleanup was allowed to work.
+			if !sameCounts(before.rows, vidMultiset(inv)) && !(fsBoth && cleanupFaulted) {
 				run.viol = fmt.Sprintf("visible rows changed (committed=%v, err=%v): %d distinct rows before, %d after", run.committed, merr, len(before.rows), len(vidMultiset(inv)))
 				run.kind = "visible-content-changed"
 				return stats, merr
@@ -175,12 +234,14 @@ func runC13(rc *RunCtx, i int) {
 					ref[p] = true
 				}
 				for _, p := range upd.Writes {
+					p = norm(p)
 					if !ref[p] {
 						run.viol = "committed output " + p + " is not referenced"
 						run.kind = "output-unreferenced"
 					}
 				}
 				for _, p := range upd.Deletes {
+					p = norm(p)
 					if ref[p] {
 						run.viol = "merged source " + p + " is still referenced after the commit"
 						run.kind = "source-still-referenced"
@@ -189,10 +250,10 @@ func runC13(rc *RunCtx, i int) {
 				tombFailed := false
 				srcs := map[string]bool{}
 				for _, p := range upd.Deletes {
-					srcs[p] = true
+					srcs[norm(p)] = true
 				}
 				for _, c := range run.calls {
-					if c.Kind == "TombstoneFile" && srcs[c.File] {
+					if c.Kind == "TombstoneFile" && srcs[norm(c.File)] {
 						if c.Start < upd.End {
 							run.viol = fmt.Sprintf("source %s was tombstoned (tick %d) before the MetaStore commit completed (tick %d)", c.File, c.Start, upd.End)
 							run.kind = "source-tombstoned-before-commit"
@@ -211,7 +272,7 @@ func runC13(rc *RunCtx, i int) {
 					run.kind = "cleanup-failure-swallowed"
 				}
 			} else {
-				if strings.Join(after, ",") != strings.Join(before.ptrs, ",") {
+				if strings.Join(after, ",") != strings.Join(before.ptrs, ",") && !(fsBoth && cleanupFaulted) {
 					run.viol = fmt.Sprintf("nothing was committed but the MetaStore changed: %v -> %v", before.ptrs, after)
 					run.kind = "metastore-changed-without-commit"
 					return stats, merr
@@ -232,7 +293,7 @@ func runC13(rc *RunCtx, i int) {
 					srcSet[p] = true
 				}
 				for _, c := range run.calls {
-					if c.Kind == "TombstoneFile" && srcSet[c.File] {
+					if c.Kind == "TombstoneFile" && srcSet[norm(c.File)] {
 						run.viol = "source " + c.File + " was tombstoned although the merge did not commit"
 						run.kind = "source-tombstoned-without-commit"
 					}
@@ -377,4 +438,29 @@ func runC13(rc *RunCtx, i int) {
 	if i < 3 {
 		rc.Res.Sample(map[string]any{"history": desc, "fault_free_store_calls": kinds, "positions": n})
 	}
+}
+
+// copyDir copies a flat directory of store files into a fresh scratch directory.
+func copyDir(src string) (string, error) {
+	dst, err := os.MkdirTemp(filepath.Dir(src), "c13copy-")
+	if err != nil {
+		return "", err
+	}
+	ents, err := os.ReadDir(src)
+	if err != nil {
+		return "", err
+	}
+	for _, e := range ents {
+		if e.IsDir() {
+			continue
+		}
+		b, err := os.ReadFile(filepath.Join(src, e.Name()))
+		if err != nil {
+			return "", err
+		}
+		if err := os.WriteFile(filepath.Join(dst, e.Name()), b, 0o600); err != nil {
+			return "", err
+		}
+	}
+	return dst, nil
 }
